@@ -3,6 +3,7 @@ package c12
 import (
 	"fmt"
 	"math"
+	"os"
 	"sort"
 	"strings"
 	"testing"
@@ -151,7 +152,7 @@ func histLens(t *rapid.T) (maxMin, maxLen int) {
 func TestSimple(t *testing.T) {
 	set := []int{kSD, kSU, kSWD, kSWU}
 	runExhaustive(t, "simple", simpleSpaces())
-	vk.Run(t, "simple", vk.Opts{Quick: 8000, Thorough: 60000}, func(t *rapid.T) Case {
+	vk.Run(t, "simple", vk.Opts{Quick: 8000, Thorough: 50000}, func(t *rapid.T) Case {
 		mm, ml := histLens(t)
 		return drawCase(t, set, mm, ml)
 	}, checker("simple", "random"))
@@ -160,7 +161,7 @@ func TestSimple(t *testing.T) {
 func TestDense(t *testing.T) {
 	set := []int{kDM, kUM}
 	runExhaustive(t, "dense", denseSpaces())
-	vk.Run(t, "dense", vk.Opts{Quick: 4000, Thorough: 40000}, func(t *rapid.T) Case {
+	vk.Run(t, "dense", vk.Opts{Quick: 4000, Thorough: 30000}, func(t *rapid.T) Case {
 		mm, ml := histLens(t)
 		return drawCase(t, set, mm, ml)
 	}, checker("dense", "random"))
@@ -169,7 +170,7 @@ func TestDense(t *testing.T) {
 func TestMulti(t *testing.T) {
 	set := []int{kMD, kMU, kMWD, kMWU}
 	runExhaustive(t, "multi", multiSpaces())
-	vk.Run(t, "multi", vk.Opts{Quick: 7000, Thorough: 60000}, func(t *rapid.T) Case {
+	vk.Run(t, "multi", vk.Opts{Quick: 7000, Thorough: 40000}, func(t *rapid.T) Case {
 		mm, ml := histLens(t)
 		return drawCase(t, set, mm, ml)
 	}, checker("multi", "random"))
@@ -275,6 +276,9 @@ func (sp *space) gen(i int) Case {
 }
 
 func runExhaustive(t *testing.T, sub string, spaces []*space) {
+	if os.Getenv("C12_PART") == "random" { // development switch: skip the exhaustive part
+		return
+	}
 	total := 0
 	var offs []int
 	for _, sp := range spaces {
